@@ -516,6 +516,11 @@ def check(fx, rep, tier):
     from ..core import Retag
 
     check_r184(fx, Retag(rep, "R06.2"))
+    # a literal key that travels through memory reaches SLOAD / SSTORE intact only if memory operations touch the words the EVM
+    # touches: operand roles and copy extents of the memory / storage model (C07 R07.2 effect:* / copy-loop:*)
+    from .. import core as _core6
+
+    _core6.import_rules(rep, fx, "C07", "R06.2", only_rules=("R07.2",), floor=20, what="memory / storage effect obligations (C07 R07.2) behind 'the key of an executed access'", key_filter=lambda k: "effect:" in k or "copy-loop:" in k)
     return rep.finish(
         "Must-flow / append-only audit of the chain executed access -> generation -> stored state -> exported StorageWrite -> lifted value -> registered value -> StorageSlot key -> layout row, "
         "with the row index carried as a 256-bit type and no dropping adaptor, conditional or narrowing on any link.",
